@@ -16,5 +16,9 @@ example : interp1 (sliceTable t0 (some 1) (some (-1))) (1/2) = interp1 t0 (3/2) 
 example : interp1 [5] 0 = some 5 ∧ interp1 [5] 1 = none ∧ interp1 [5] (-1) = none := by decide +kernel
 example : resampleGrid (1/2) 6 2 = [1/2, 5/2, 9/2] := by decide +kernel
 example : joinedP2W [t0, [0, 10]] [1, 1/2] = [some 3, some 5] := by decide +kernel
+-- the lazily composed slice of a meshed table: coord[-3:][-2:] on 8 entries keeps [6, 8)
+example : meshChain 8 [(some (-3), none), (some (-2), none)] = (6, 8) ∧
+    lazyComponent [0, 1, 3, 6, 10, 15, 21, (28 : Rat)] (meshChain 8 [(some 1, some 7), (some 1, some 3)]) = [3, 6] ∧
+    meshChain 8 [(some 2, some 5), (none, some (-1))] = (2, 4) := by decide +kernel
 
 end Ndcube.C19.Witness
